@@ -16,8 +16,8 @@ file. For `Get` the machine is proved equal to the skeleton (Props/C05); for the
 skeleton is tied to the code by the correspondence run only.
 
 Deviations of the pinned code from the documented behaviour are carried explicitly behind the flags
-of `Cfg` (`Cfg.pinned` = the code as it is, `Cfg.fixed` = every flag off = the behaviour after the
-proposed fixes in /verif/notes/proposed_fixes/C05_*.md, C11_*.md).
+of `Cfg` (`Cfg.original` = the code before the fixes of /verif/notes/proposed_fixes/C05_*.md, C11_*.md,
+`Cfg.pinned` = the code as it is now, `Cfg.fixed` = every flag off).
 
 Data representations (`Rep`): the same JSON-like tree held as `[]any`/`map[string]any`, as gen nodes,
 as user `Indexed`/`Keyed` collections, or as typed slices/arrays/structs/maps reached by reflection.
@@ -83,7 +83,19 @@ structure Cfg where
   walkTypedArray : Bool := true
   deriving Inhabited
 
-def Cfg.pinned : Cfg := {}
+/-- the code as it was before the jp fixes of this verification (every deviation present) -/
+def Cfg.original : Cfg := {}
+
+/-- **the code as it is now.** Repaired (flag off), with the commit in /repo:
+`descentSiblings` baff053 · `innerEmptySlice` 0e0caaf · `locNegEnd`, `locEmptyArray`, `locateRoot` fa2ed77 ·
+`walkDescentNoSelf` 5d79291 · `nodesUnionNil`, `nodesFilterRev`, `firstNodeLast`, `nodesFilterNull` 360668e ·
+`hasTypedMap`, `hasTypedDescent` 21977aa (1af5385, FirstFound on Indexed, had no flag).
+Still present: `locStartClamp` (pinned by the suite), `typedMapWild`, `typedObjFilter`, `firstTypedSlice`,
+`firstTypedWildOne`, `walkTypedArray`. -/
+def Cfg.pinned : Cfg :=
+  { innerEmptySlice := false, descentSiblings := false, locNegEnd := false, locEmptyArray := false,
+    locateRoot := false, walkDescentNoSelf := false, nodesUnionNil := false, nodesFilterRev := false,
+    firstNodeLast := false, nodesFilterNull := false, hasTypedMap := false, hasTypedDescent := false }
 def Cfg.fixed : Cfg :=
   { innerEmptySlice := false, descentSiblings := false, locNegEnd := false, locStartClamp := false, locEmptyArray := false, locateRoot := false, walkDescentNoSelf := false,
     nodesUnionNil := false, nodesFilterRev := false, firstNodeLast := false, nodesFilterNull := false,
